@@ -199,6 +199,86 @@ def _tbm(U):
     U.external("TBmodels: model.hop[R] holds one block of each +-R pair (half of the R = 0 block); H(k) = sum_R hop[R] ph(k.R) + h.c. (documented convention; validated by the stand-in)")
 
 
+@unit("C32", "bundled Haldane builders: the PythTB and the TBmodels version issue the same model for the same parameters", scope="shape:both PythTB API generations; symbolic delta, hop1, hop2; three values of phi", expect_min=4)
+def _haldane_builders(U):
+    import sys
+    import packaging.version as version_mod
+    FM = "wannierberri/models.py"
+    NP = Shim(float_object=False)
+
+    class Rec:
+        def __init__(self, **kw):
+            self.kw, self.onsite, self.hops = kw, None, []
+
+        def set_onsite(self, e):
+            self.onsite = list(e)
+
+        def set_hop(self, amp, i, j, R):
+            self.hops.append((SCplx.of(amp), int(i), int(j), tuple(int(x) for x in R)))
+        add_hop = set_hop
+
+    def body():
+        gen = ctx().choose(2, "pythtb-generation")
+        iphi = ctx().choose(3, "phi")
+        phi = [rnp.pi / 2, 0.7, -2.3][iphi]
+        ptb = types.ModuleType("pythtb")
+        ptb.__version__ = ["1.8.0", "2.0.0"][gen]
+        ptb.tb_model = lambda dk, dr, lat, orb: Rec(dim=(dk, dr), lat=lat, pos=orb)
+        ptb.Lattice = lambda lat_vecs, orb_vecs, periodic_dirs: dict(lat=lat_vecs, pos=orb_vecs, per=list(periodic_dirs))
+        ptb.TBModel = lambda lattice: Rec(dim=(len(lattice["per"]), len(lattice["lat"])), lat=lattice["lat"], pos=lattice["pos"])
+        tbm = types.ModuleType("tbmodels")
+
+        def Model(on_site, uc, dim, occ, pos):
+            m = Rec(dim=(dim, len(uc)), lat=uc, pos=pos)
+            m.onsite = list(on_site)
+            return m
+        tbm.Model = Model
+        g = dict(np=NP, version=version_mod, NEW_PYTHTB_VERSION=version_mod.parse("2.0.0"))
+        f_ptb = U.fn(FM, "Haldane_ptb", globs=g, model=False, rewrite_comps=False)
+        f_tbm = U.fn(FM, "Haldane_tbm", globs=g, model=False, rewrite_comps=False)
+        delta, hop1, hop2 = sreal("delta"), sreal("hop1"), sreal("hop2")
+        saved = {k: sys.modules.get(k) for k in ("pythtb", "tbmodels")}
+        sys.modules["pythtb"], sys.modules["tbmodels"] = ptb, tbm
+        try:
+            a = f_ptb(delta=delta, hop1=hop1, hop2=hop2, phi=phi)
+            b = f_tbm(delta=delta, hop1=hop1, hop2=hop2, phi=phi)
+        finally:
+            for k, v in saved.items():
+                if v is None:
+                    sys.modules.pop(k, None)
+                else:
+                    sys.modules[k] = v
+        U.ensure("same dimensions, lattice and orbital positions", a.kw["dim"] == b.kw["dim"] == (2, 2) and rnp.allclose(a.kw["lat"], b.kw["lat"], atol=1e-14) and rnp.allclose(a.kw["pos"], b.kw["pos"], atol=1e-14))
+        U.ensure("same on-site energies (-delta, +delta): every parameter is used", len(a.onsite) == len(b.onsite) == 2 and _valid(land(*[lift(x) == lift(y) for x, y in zip(a.onsite, b.onsite)]))
+                 and _valid(land(lift(a.onsite[0]) == -delta, lift(a.onsite[1]) == delta)))
+
+        def table(m):
+            t = {}
+            for amp, i, j, R in m.hops:
+                # both libraries: hop t for (i, j, R) with the Hermitian conjugate implied -> canonical orientation, amplitudes of repeated hops add
+                key, v = (i, j, R), amp
+                if (j, i, tuple(-x for x in R)) < key:
+                    key, v = (j, i, tuple(-x for x in R)), amp.conj()
+                t[key] = t[key] + v if key in t else v
+            return t
+        ta, tb = table(a), table(b)
+        U.ensure("same hoppings (amplitude, orbitals, lattice vector; up to the implied Hermitian conjugate)", set(ta) == set(tb) and len(ta) == 9
+                 and _valid(land(*[land(ta[k].re == tb[k].re, ta[k].im == tb[k].im) for k in ta])))
+        c, s_ = float(rnp.cos(phi)), float(rnp.sin(phi))
+        nn = [k for k in ta if k[0] != k[1]]
+        U.ensure("nearest-neighbour amplitude hop1 on three bonds, second-neighbour amplitude hop2 e^{+-i phi} on six",
+                 len(nn) == 3 and _valid(land(*[land(ta[k].re == hop1, ta[k].im == 0) for k in nn]))
+                 and _valid(land(*[land((ta[k].re - hop2 * c) * (ta[k].re - hop2 * c) <= 1e-24 * hop2 * hop2 + 0, lor_abs(ta[k].im, hop2 * s_)) for k in ta if k[0] == k[1]])))
+    U.run(body, check_feasible=False)
+    U.external("PythTB set_hop / TBmodels add_hop: same argument convention (amplitude, i, j, R) = <i,0|H|j,R> with the Hermitian conjugate added by the library (documented; validated by the stand-in comparing the two real models)")
+
+
+def lor_abs(x, y):
+    """|x| = |y| up to rounding of the float constant:  (x - y)^2 <= eps y^2  or  (x + y)^2 <= eps y^2"""
+    from pyvc.core import lor
+    return lor((x - y) * (x - y) <= 1e-24 * y * y, (x + y) * (x + y) <= 1e-24 * y * y)
+
+
 # ------------------------------------------------------------------ bounded stand-in: the installed libraries
 def _real_models(rng, n):
     import pythtb
@@ -260,7 +340,8 @@ def _real_models(rng, n):
                 if bad:
                     fails.append(dict(input=dict(case=t, dim=dim, norb=int(norb), k=k.tolist()), clause="same band energies as the source model", failed=bad))
         # the bundled example models
-        for kw in (dict(delta=0.2, hop1=-1.0, hop2=0.15, phi=rnp.pi / 2), dict(delta=0.2, hop1=-0.8, hop2=0.3, phi=0.7)):
+        for kw in (dict(delta=0.2, hop1=-1.0, hop2=0.15, phi=rnp.pi / 2), dict(delta=0.2, hop1=-0.8, hop2=0.3, phi=0.7), dict(delta=0.5, hop1=-1.0, hop2=0.15, phi=rnp.pi / 2),
+                   dict(delta=-0.35, hop1=0.6, hop2=0.2, phi=-1.1)):
             a = wb.system.System_R.from_pythtb(models.Haldane_ptb(**kw))
             b = wb.system.System_R.from_tbmodels(models.Haldane_tbm(**kw))
             bad = []
@@ -276,4 +357,4 @@ def _real_models(rng, n):
 
 Unit("C32", "imports against the libraries' own solvers [real PythTB / TBmodels]", concrete=_real_models,
      bounded_desc="3 (quick) / 10 (thorough) random 2D / 3D models with 2-3 orbitals built in BOTH libraries (orbitals outside the home cell, complex hoppings): energies of the imported systems vs TBModel.solve_ham / Model.eigenval at random k; "
-                  "bundled Haldane models of both builders with two parameter sets")
+                  "bundled Haldane models of both builders with four parameter sets (two values of every parameter)")
